@@ -1113,3 +1113,7 @@ add("C16", "decorator-reorder-drops-other-decorators-of-same-kind", DROT,
 add("C16", "benign-decorator-reorder-written-as-loop", DROT,
     [("                new_decorators.extend(\n                    d for d in original_node.decorators if d != receiver\n                )", "                for d in original_node.decorators:\n                    if d != receiver:\n                        new_decorators.append(d)")],
     "silent")
+BOC = "core_codemods/break_or_continue_out_of_loop.py"
+add("C02", "emptied-if-statement-removed", BOC,
+    [("    def leave_Else(", "    def leave_If(self, original_node, updated_node):\n        if not updated_node.body.body and updated_node.orelse is None:\n            return cst.RemovalSentinel.REMOVE\n        return updated_node\n\n    def leave_Else(")],
+    "fire", "R-REMOVAL-KINDS", "leave_If")
